@@ -167,12 +167,26 @@ type entryAbs struct {
 	tIdx   int    // revocation time index 0..2
 	inv    string // "none","before","equal","after","malformed"
 	crit   bool
+	// "" = the certificate's serial (match) or a small foreign one; otherwise a near miss of a serial wider than 64 bits:
+	// "low64-same" (high bits differ), "trunc64" (the low 64 bits alone), "plus64" (+2^64), "exact"
+	ser string
 }
 
 func (e entryAbs) spec(k *crlCtx) EntrySpec {
 	serial := k.leaf.Cert.SerialNumber
 	if !e.match {
 		serial = big.NewInt(777000 + int64(e.reason))
+	}
+	two64 := new(big.Int).Lsh(big.NewInt(1), 64)
+	switch e.ser {
+	case "low64-same":
+		serial = new(big.Int).Xor(k.leaf.Cert.SerialNumber, new(big.Int).Lsh(big.NewInt(1), uint(k.leaf.Cert.SerialNumber.BitLen()-3)))
+	case "trunc64":
+		serial = new(big.Int).Mod(k.leaf.Cert.SerialNumber, two64)
+	case "plus64":
+		serial = new(big.Int).Add(k.leaf.Cert.SerialNumber, two64)
+	case "exact":
+		serial = k.leaf.Cert.SerialNumber
 	}
 	stRef := k.st
 	if stRef.IsZero() {
@@ -242,11 +256,68 @@ func genC10(r *Runner) {
 							if quick && (t != 1 || (reason != 0 && reason != 1 && reason != 6 && reason != 8 && reason != -1)) {
 								continue
 							}
-							e := entryAbs{match, reason, t, inv, crit}
+							e := entryAbs{match, reason, t, inv, crit, ""}
 							cases = append(cases, entriesCase("single", []entryAbs{e}, nil, false, stZero))
 						}
 					}
 				}
+			}
+		}
+	}
+	// serial numbers wider than 64 bits: only the very same integer matches
+	for _, sb := range []int{9, 20} {
+		for _, ser := range []string{"exact", "low64-same", "trunc64", "plus64"} {
+			for _, reason := range []int{1, 6} {
+				for _, inDelta := range []bool{false, true} {
+					e := entryAbs{true, reason, 1, "none", false, ser}
+					var c chainCase
+					if inDelta {
+						c = entriesCase("wide-serial", nil, []entryAbs{e}, true, false)
+					} else {
+						c = entriesCase("wide-serial", []entryAbs{e}, nil, false, false)
+					}
+					c.levels[0].serialBytes = sb
+					cases = append(cases, c)
+				}
+			}
+			// a near miss that "removes" or "holds" next to the real entry
+			for _, pair := range [][2]entryAbs{
+				{{true, 1, 0, "none", false, "exact"}, {true, 8, 2, "none", false, ser}},
+				{{true, 6, 0, "none", false, "exact"}, {true, 8, 2, "none", false, ser}},
+				{{true, 8, 2, "none", false, "exact"}, {true, 6, 0, "none", false, ser}}} {
+				c := entriesCase("wide-serial-pair", []entryAbs{pair[0], pair[1]}, nil, false, false)
+				c.levels[0].serialBytes = sb
+				cases = append(cases, c)
+				c2 := entriesCase("wide-serial-pair", []entryAbs{pair[0]}, []entryAbs{pair[1]}, true, false)
+				c2.levels[0].serialBytes = sb
+				cases = append(cases, c2)
+			}
+		}
+	}
+	// the second certificate checked against the same parsed lists: a sibling whose serial the list also names is checked first
+	for _, r1 := range []int{1, 6, 8} {
+		for _, r2 := range []int{1, 6, 8} {
+			mine := entryAbs{true, r1, 0, "none", false, ""}
+			theirs := entryAbs{false, r2, 2, "none", false, ""}
+			sib := big.NewInt(777000 + int64(r2))
+			for _, lay := range []string{"mine-theirs", "theirs-mine", "theirs-mine-theirs", "base-mine/delta-theirs", "base-theirs/delta-mine", "base-theirs-mine/delta-theirs"} {
+				var c chainCase
+				switch lay {
+				case "mine-theirs":
+					c = entriesCase("second-certificate", []entryAbs{mine, theirs}, nil, false, false)
+				case "theirs-mine":
+					c = entriesCase("second-certificate", []entryAbs{theirs, mine}, nil, false, false)
+				case "theirs-mine-theirs":
+					c = entriesCase("second-certificate", []entryAbs{theirs, mine, theirs}, nil, false, false)
+				case "base-mine/delta-theirs":
+					c = entriesCase("second-certificate", []entryAbs{mine}, []entryAbs{theirs}, true, false)
+				case "base-theirs/delta-mine":
+					c = entriesCase("second-certificate", []entryAbs{theirs}, []entryAbs{mine}, true, false)
+				case "base-theirs-mine/delta-theirs":
+					c = entriesCase("second-certificate", []entryAbs{theirs, mine}, []entryAbs{theirs}, true, false)
+				}
+				c.warmupSerial = sib
+				cases = append(cases, c)
 			}
 		}
 	}
@@ -262,13 +333,13 @@ func genC10(r *Runner) {
 		for _, t := range times {
 			for _, inv := range []string{"none", "after"} {
 				for _, crit := range []bool{false, true} {
-					alpha = append(alpha, entryAbs{true, reason, t, inv, crit})
+					alpha = append(alpha, entryAbs{true, reason, t, inv, crit, ""})
 				}
 			}
 		}
 	}
 	if !quick {
-		alpha = append(alpha, entryAbs{false, 1, 1, "none", true}, entryAbs{true, 6, 1, "equal", false}, entryAbs{true, 8, 1, "before", false})
+		alpha = append(alpha, entryAbs{false, 1, 1, "none", true, ""}, entryAbs{true, 6, 1, "equal", false, ""}, entryAbs{true, 8, 1, "before", false, ""})
 	}
 	for _, a := range alpha {
 		for _, b := range alpha {
@@ -300,7 +371,7 @@ func genC10(r *Runner) {
 				if sameTime {
 					t = 1
 				}
-				es = append(es, entryAbs{true, rs, t % 3, "none", false})
+				es = append(es, entryAbs{true, rs, t % 3, "none", false, ""})
 			}
 			cases = append(cases, entriesCase("hold-remove-order", es, nil, false, true))
 			cases = append(cases, entriesCase("hold-remove-order", es[:1], es[1:], true, false))
@@ -316,7 +387,7 @@ func genC10(r *Runner) {
 		n := 3 + rng.Intn(6)
 		var base, delta []entryAbs
 		for j := 0; j < n; j++ {
-			e := entryAbs{rng.Intn(4) != 0, []int{-1, 0, 1, 2, 3, 4, 5, 6, 6, 8, 8, 9, 10}[rng.Intn(13)], rng.Intn(3), allInv[rng.Intn(len(allInv))], rng.Intn(8) == 0}
+			e := entryAbs{rng.Intn(4) != 0, []int{-1, 0, 1, 2, 3, 4, 5, 6, 6, 8, 8, 9, 10}[rng.Intn(13)], rng.Intn(3), allInv[rng.Intn(len(allInv))], rng.Intn(8) == 0, ""}
 			if rng.Intn(3) == 0 {
 				delta = append(delta, e)
 			} else {
